@@ -86,12 +86,15 @@ class MTr:
             dump = ast.dump(node)
         raise Unsupported(f"{self.src}:{getattr(node, 'lineno', '?')}: unsupported {what}: {dump[:160]}")
 
-    def params(self, env, exclude=()):
-        deps = set()
+    def params(self, env, exclude=(), text=None):
+        """the locals in scope that the loop body (its generated `text`) actually mentions, in the order in which they were introduced
+        (so that neither renaming a local nor adding one the loop does not use changes the signature of the generated loop function)"""
+        ps = []
         for v in env.values():
             if isinstance(v, V) and v.ty != "opaque":
-                deps |= {dp for dp in v.deps if dp[0] not in GLOBALS and dp[0] not in exclude}
-        ps = sorted(deps)
+                for dp in sorted(v.deps):
+                    if dp[0] not in GLOBALS and dp[0] not in exclude and dp not in ps and (text is None or re.search(r"(?<![A-Za-z0-9_'])" + re.escape(dp[0]) + r"(?![A-Za-z0-9_'])", text)):
+                        ps.append(dp)
         decl = "(c : cfg) (fuel : nat) " + ("(d : nat) " if self.ctx == "deme" else "") + "".join(f"({n} : {t}) " for n, t in ps)
         use = "c fuel " + ("d " if self.ctx == "deme" else "") + "".join(f"{n} " for n, _ in ps)
         return decl, use
@@ -299,7 +302,7 @@ class MTr:
         args = e.args
         if d == "reversed" and len(args) == 1:
             v = self._expr(args[0], env, pre)
-            if v.ty in ("ld_list", "nat_list", "inds"):
+            if v.ty in ("ld_list", "nat_list", "inds", "deme_list"):
                 return V(f"(rev {v.code})", v.ty)
             self.bad(e, "reversed of " + v.ty)
         if d == "list" and len(args) == 1:
@@ -308,7 +311,7 @@ class MTr:
                 return v
         if d == "len" and len(args) == 1:
             v = self._expr(args[0], env, pre)
-            if v.ty in ("ld_list", "nat_list", "inds", "cmap"):
+            if v.ty in ("ld_list", "nat_list", "inds", "cmap", "deme_list"):
                 return V(f"(length {v.code})", "nat")
             if v.ty == "opaque":
                 return opaque()
@@ -578,7 +581,6 @@ class MTr:
             inner = dict(env)
             for nm in carried:
                 inner[nm] = V("v_" + nm, env[nm].ty)
-            decl, use = self.params(env, exclude={"v_" + nm for nm in carried})
             self.nloops = getattr(self, "nloops", 0) + 1
             k_id = self.nloops
             # fixpoint of the freshness tags over the loop: analyse the body twice, joining the tags at the head
@@ -604,6 +606,7 @@ class MTr:
                     break
                 self.n, self.nloops = n0, l0
                 del self.aux[a0:]
+            decl, use = self.params(env, exclude={"v_" + nm for nm in carried}, text=" ".join(cpre) + " " + cv.code + " " + body)
             self.aux.append(f"Definition {self.fname}_cond{k_id} {decl}{pat} : D bool :=\n  {unpack}" + " ".join(cpre) + f" ret {cv.code}.\n")
             self.aux.append(f"Definition {self.fname}_body{k_id} {decl}{pat} : D ({lty} * bool) :=\n  {unpack}{body}.\n")
             r = self.fresh("r")
@@ -632,7 +635,7 @@ class MTr:
             x = self.fresh("it")
             if it.ty == "ld_list" and isinstance(s.target, ast.Tuple) and len(s.target.elts) == 2 and all(isinstance(n, ast.Name) for n in s.target.elts):
                 lvl_name, dm = s.target.elts
-                if lvl_name.id != "_":
+                if any(isinstance(n, ast.Name) and n.id == lvl_name.id for st in s.body for n in ast.walk(st)):
                     self.bad(s, "the level component of active_demes entries is not modelled")
                 inner[dm.id] = V(x, "deme")
                 xty = "nat"
@@ -651,10 +654,10 @@ class MTr:
                 self.bad(s, f"for over {it.ty}")
             was = self.in_for
             self.in_for = True
-            decl, use = self.params(env)
             self.nloops = getattr(self, "nloops", 0) + 1
             k_id = self.nloops
             body = self.block(s.body, inner, lambda e2: "ret false", lambda e2: "ret true")
+            decl, use = self.params(env, text=body)
             self.in_for = was
             self.aux.append(f"Definition {self.fname}_for{k_id} {decl}({x} : {xty}) : D bool :=\n  {body}.\n")
             b = self.fresh("b")
